@@ -19,13 +19,21 @@ namespace VarFile
 with `e`, and `e` is not empty: what `T::write` followed by `T::read` guarantees for a type whose
 encoding is self-delimiting (every `Writeable` stored in a data file). -/
 def Delim (el : Bytes → Option Nat) (e : Bytes) : Prop :=
-  e ≠ [] ∧ ∀ rest, el (e ++ rest) = some e.length
+  (e ≠ [] ∧ e.length < 65536) ∧ ∀ rest, el (e ++ rest) = some e.length
 
 /-! ### `sizeEntries`, `slice`, `parseAll` -/
 
 theorem sizeEntries_length : ∀ (l : List Bytes) (off : Nat), (sizeEntries off l).length = l.length
   | [], _ => rfl
   | e :: es, off => by simp [sizeEntries, sizeEntries_length es]
+
+/-- for elements shorter than 65536 bytes the `u16` size cast changes nothing -/
+theorem sizeEntriesW_eq : ∀ (l : List Bytes) (off : Nat), (∀ e ∈ l, e.length < 65536) →
+    sizeEntriesW off l = sizeEntries off l
+  | [], _, _ => rfl
+  | e :: es, off, h => by
+    have he : u16 e.length = e.length := Nat.mod_eq_of_lt (h e (by simp))
+    simp only [sizeEntriesW, sizeEntries, he, sizeEntriesW_eq es _ (fun x hx => h x (by simp [hx]))]
 
 theorem sizeEntries_append : ∀ (a b : List Bytes) (off : Nat),
     sizeEntries off (a ++ b) = sizeEntries off a ++ sizeEntries (off + a.flatten.length) b
@@ -98,7 +106,7 @@ theorem parseAll_flatten (el : Bytes → Option Nat) : ∀ (E : List Bytes) (fue
           simp [this]
   | e :: es, 0, _, hl => by simp at hl
   | e :: es, fuel+1, hd, hl => by
-    obtain ⟨hne, hr⟩ := hd e (by simp)
+    obtain ⟨⟨hne, _⟩, hr⟩ := hd e (by simp)
     have hpos : 0 < e.length := List.length_pos_iff.2 hne
     simp only [List.flatten_cons, parseAll, hr]
     have h1 : ¬ (e.length = 0 ∨ (e ++ es.flatten).length < e.length) := by
@@ -116,11 +124,11 @@ theorem length_le_flatten : ∀ (E : List Bytes), (∀ e ∈ E, e ≠ []) → E.
 theorem parseAll_disk (el : Bytes → Option Nat) (E : List Bytes) (hd : ∀ e ∈ E, Delim el e) :
     parseAll el (E.flatten.length + 1) E.flatten = E :=
   parseAll_flatten el E _ hd (by
-    have := length_le_flatten E (fun e he => (hd e he).1); omega)
+    have := length_le_flatten E (fun e he => (hd e he).1.1); omega)
 
 theorem flatten_eq_nil_of_delim {el : Bytes → Option Nat} {E : List Bytes}
     (hd : ∀ e ∈ E, Delim el e) (h : E.flatten.length = 0) : E = [] := by
-  have := length_le_flatten E (fun e he => (hd e he).1)
+  have := length_le_flatten E (fun e he => (hd e he).1.1)
   exact List.eq_nil_of_length_eq_zero (by omega)
 
 /-- the elements `write_tmp_pruned` keeps are elements of the file -/
@@ -215,7 +223,7 @@ theorem Rep.read (h : Rep el v f) (pos : Nat) : VarFile.read el v pos = f.read p
       simp only [Option.map_some, h.bsp, if_pos hp, h.disk]
       have hs := slice_flatten' f.disk pos f.disk[pos] (List.getElem?_eq_getElem hpd)
       rw [hs]
-      obtain ⟨hne, hr⟩ := h.delimDisk f.disk[pos] (List.getElem_mem hpd)
+      obtain ⟨⟨hne, _⟩, hr⟩ := h.delimDisk f.disk[pos] (List.getElem_mem hpd)
       have := hr []
       rw [List.append_nil] at this
       rw [this]
@@ -238,7 +246,7 @@ theorem Rep.read (h : Rep el v f) (pos : Nat) : VarFile.read el v pos = f.read p
       simp only [Nat.add_sub_cancel_left, h.buffer]
       have hs := slice_flatten' f.buffer (pos - f.bsp) _ (List.getElem?_eq_getElem hj)
       rw [hs]
-      obtain ⟨hne, hr⟩ := h.delimBuf _ (List.getElem_mem hj)
+      obtain ⟨⟨hne, _⟩, hr⟩ := h.delimBuf _ (List.getElem_mem hj)
       have := hr []
       rw [List.append_nil] at this
       rw [this]
@@ -296,8 +304,9 @@ theorem Rep.append (h : Rep el v f) (e : Bytes) (he : Delim el e) :
     unfold AOF.sizeUnsyncInElmts
     rw [h.sfBsp, h.sfBuffer, sizeEntries_length]
   have key : ∀ off, off = (f.disk.take f.bsp).flatten.length + f.buffer.flatten.length →
-      Rep el { v with sizeFile := v.sizeFile.append (off, e.length), buffer := v.buffer ++ e }
+      Rep el { v with sizeFile := v.sizeFile.append (off, u16 e.length), buffer := v.buffer ++ e }
         (f.append e) := by
+    have hu : u16 e.length = e.length := Nat.mod_eq_of_lt he.1.2
     intro off hoff
     refine ⟨h.delimDisk, ?_, h.disk, ?_, h.bsp, h.bak, h.sfDisk, ?_, h.sfBsp, h.sfBak, h.le, h.bak0,
       h.bakPos⟩
@@ -307,7 +316,7 @@ theorem Rep.append (h : Rep el v f) (e : Bytes) (he : Delim el e) :
       · exact h.delimBuf x hx
       · rw [hx]; exact he
     · simp [AOF.append, h.buffer]
-    · simp only [AOF.append, h.sfBuffer, sizeEntries_append, sizeEntries, hoff]
+    · simp only [AOF.append, h.sfBuffer, sizeEntries_append, sizeEntries, hoff, hu]
   unfold VarFile.append
   dsimp only
   rw [hsu]
@@ -468,7 +477,7 @@ theorem rep_rebuild {E : List Bytes} (hd : ∀ e ∈ E, Delim el e) (v0 : VarFil
     Rep el (init (rebuildSizeFile el v0)) (AOF.ofDisk E) := by
   apply rep_init hd
   · exact h1
-  · simp only [rebuildSizeFile, h1, parseAll_disk el E hd]
+  · simp only [rebuildSizeFile, h1, parseAll_disk el E hd, sizeEntriesW_eq E 0 (fun e he => (hd e he).1.2)]
   · exact hb
   · exact hsb
   · exact hk
